@@ -2,11 +2,13 @@
 from .. import cases, monitors
 
 TITLE = "Best alignment is a partition of the continuum's units"
-DECIDING = ["M-PART", "M-SOLVER"]
+DECIDING = ["M-PART", "M-SOLVER", "M-PART-SESSION"]
 LEVEL = "exploration"
 RULE = ("seeded random continua (2-5 annotators, 0..k units each, ten segment families incl. identical units across "
         "annotators, nested, long-overlapping, touching, negative times; labelled, unlabelled and mixed) x pooled "
-        "dissimilarities of every built-in class and parameter value x both MIP back-ends; a case is non-trivial when "
+        "dissimilarities of every built-in class and parameter value x both MIP back-ends; 12 % of the cases are editing "
+        "sessions (align, then add_annotator / merge of a unit-less annotator / add / remove / reset_bounds, align again "
+        "on the same continuum and dissimilarity objects, 2-6 edits); a case is non-trivial when "
         "the continuum has >= 2 units in total; distinct = distinct (continuum, dissimilarity, back-end) by SHA-1 of the "
         "canonical case")
 ASSUMPTIONS = [
@@ -57,7 +59,37 @@ def gen_case(ctx, dspecs):
     return {"continuum": cspec, "dissim": dspec, "backend": backend}
 
 
+def check_session(ctx, case):
+    """One continuum object and one dissimilarity object: align, edit, align again ... each result is checked against
+    the content the continuum has at that moment."""
+    from . import _align_common as ac
+    spy, pool = _setup(ctx)
+    dissim = pool.get(case["dissim"])
+    continuum = cases.build_continuum(case["continuum"])
+    for step, op in enumerate([None] + case["session"]):
+        try:
+            if op is not None:
+                ac.apply_edit(continuum, op)
+            if not continuum or len(continuum.annotators) < 2:
+                continue
+            alignment = continuum.get_best_alignment(dissim)
+        except BaseException as e:
+            ctx.count("M-RETURN")
+            ctx.fail_exc(f"session:raises:{type(e).__name__}", e, monitor="M-RETURN")
+            return
+        ctx.count("M-RETURN")
+        ctx.count("M-PART")
+        ctx.count("M-PART-SESSION")
+        problems = monitors.check_partition(continuum, alignment)
+        if problems:
+            ctx.fail("session:not-a-partition-after-edit", {"problems": problems, "step": step, "after": op,
+                                                            "content_now": cases.spec_of(continuum)}, monitor="M-PART")
+            return
+
+
 def check_case(ctx, case):
+    if "session" in case:
+        return check_session(ctx, case)
     spy, pool = _setup(ctx)
     cspec, dspec = case["continuum"], case["dissim"]
     try:
@@ -107,13 +139,20 @@ def run(ctx):
         if ctx.out_of_time():
             break
         case = gen_case(ctx, dspecs)
+        if ctx.rng.random() < 0.12:
+            from . import _align_common as ac
+            labels = cases.dissim_labels(case["dissim"]) or cases.LABELS_SMALL
+            case = {"continuum": case["continuum"], "dissim": case["dissim"],
+                    "session": ac.gen_edit_ops(ctx.rng, case["continuum"], labels, ctx.rng.randint(2, 6))}
+            if any(u[2] is None for us in case["continuum"]["ann"].values() for u in us):
+                case["session"] = [op for op in case["session"] if op[0] != "add"] or [["reset_bounds"]]
         cs = case["continuum"]
         ctx.begin_case(case, nontrivial=cases.spec_num_units(cs) >= 2)
         ctx.observe("annotators", len(cs["ann"]))
         ctx.observe("shape", cases.spec_shape(cs))
         ctx.observe("family", cs.get("family"))
         ctx.observe("dissim", case["dissim"]["kind"])
-        ctx.observe("backend", case["backend"])
+        ctx.observe("backend", case.get("backend", "session"))
         ctx.observe("labels", "none" if all(u[2] is None for us in cs["ann"].values() for u in us) and
                     cases.spec_num_units(cs) else
                     ("mixed" if any(u[2] is None for us in cs["ann"].values() for u in us) else "all"))
